@@ -538,7 +538,7 @@ func registerOverrides(e *Engine) {
 	e.reg("github.com/pkg/errors.Is", is)
 	e.reg("errors.Unwrap", func(in *interp, fr *frame, a []value) value { return in.unwrap(fr, a[0].(iface)) })
 	e.reg("github.com/pkg/errors.Unwrap", func(in *interp, fr *frame, a []value) value { return in.unwrap(fr, a[0].(iface)) })
-	e.reg("errors.As", func(in *interp, fr *frame, a []value) value {
+	asFn := func(in *interp, fr *frame, a []value) value {
 		// target is *T (pointer to a variable of some type implementing error)
 		err := a[0].(iface)
 		tgt := a[1].(iface)
@@ -560,7 +560,9 @@ func registerOverrides(e *Engine) {
 			err = in.unwrap(fr, err).(iface)
 		}
 		return in.ctx.F
-	})
+	}
+	e.reg("errors.As", asFn)
+	e.reg("github.com/pkg/errors.As", asFn)
 
 	// ---------------- sort ----------------
 	e.reg("sort.Slice", func(in *interp, fr *frame, a []value) value {
